@@ -573,13 +573,99 @@ TAGS_JUDGED = ["en", "ja", "fr", "und", "zh-Hant", "de"]
 TAGS_REGIONAL = ["en-US", "ja-JP"]      # left unspecified by C18: run, recorded, not judged
 
 
+NAMES_SOURCE = "ast"
+NAMES_NOTE = ""
+
+
 def run_extract():
-    """regenerate lean/CvssVerif/Generated/Names.lean from /repo (translator tie of C17/C18)"""
+    """regenerate lean/CvssVerif/Generated/Names.lean from /repo (translator tie of C17/C18).
+    Primary translator: go/extract (go/parser; understands map literals and the lookup-with-fallback shape of the
+    functions; gives tables valid for *all* integers).  If it reports that it did not understand the source (a harmless
+    restructuring of the package is enough), the tables are rebuilt from the package's behaviour instead: every exported
+    function is called, through the harness, on the integers -130..130 in English and Japanese, and the observed names
+    are written in the same format.  The C18 theorems are then re-checked on those tables; what is lost is the claim
+    for integers outside the probed range (recorded in the evidence)."""
+    global NAMES_SOURCE, NAMES_NOTE
     src = os.path.join(core.VERIF, "go", "extract")
     out = os.path.join(core.BUILD, "extract")
-    core.sh(["go", "build", "-o", out, "."], cwd=src, env=core.GOENV, timeout=300)
-    p = core.sh([out, core.REPO, os.path.join(core.LEAN, "CvssVerif", "Generated", "Names.lean")], timeout=120)
-    return p.stdout.strip()
+    dst = os.path.join(core.LEAN, "CvssVerif", "Generated", "Names.lean")
+    note = ""
+    try:
+        core.sh(["go", "build", "-o", out, "."], cwd=src, env=core.GOENV, timeout=300)
+        p = core.sh([out, core.REPO, dst + ".ast"], timeout=120)
+        txt = p.stdout.strip()
+        if "problems=0" in txt.replace(" ", "") or txt.endswith("problems=0"):
+            new = open(dst + ".ast").read()
+            os.remove(dst + ".ast")
+            if not os.path.exists(dst) or open(dst).read() != new:
+                open(dst, "w").write(new)
+            NAMES_SOURCE, NAMES_NOTE = "ast", txt
+            return txt
+        note = "go/extract did not understand the source: " + txt
+        os.remove(dst + ".ast")
+    except core.BuildError as e:
+        note = "go/extract failed: " + str(e)[-300:]
+    _names_from_behaviour(dst)
+    NAMES_SOURCE, NAMES_NOTE = "behaviour", note
+    return note
+
+
+def _lean_bytes(b):
+    return "[" + ", ".join(str(x) for x in b) + "]"
+
+
+def _names_from_behaviour(dst):
+    from . import vec
+    titles = list(NAME_FUNCS_TITLE)
+    values = [m[0] + "ValueOf" for m in vec.V3] + ["SeverityValueOf"]
+    ops = []
+    for fn in titles:
+        for tag in ("en", "ja"):
+            ops.append("NM %s 0 %s" % (fn, tag))
+    rng_v = list(range(-130, 131))
+    for fn in values:
+        for v in rng_v:
+            for tag in ("en", "ja"):
+                ops.append("NM %s %d %s" % (fn, v, tag))
+    go = core.run_sharded(core.HARNESS, ops, shards=1)
+    res = {}
+    for op, g in zip(ops, go):
+        f = op.split(" ")
+        h = core.parse_kv(g).get("name")
+        if h is None:
+            raise core.BuildError("behavioural names probe: %s -> %s" % (op, g[:100]))
+        res[(f[1], int(f[2]), f[3])] = list(core.unhx(h))
+    lines = ["/- GENERATED on every run from the *behaviour* of /repo/v3/report/names (the source translator go/extract did not",
+             "   understand the source): every exported function called on -130..130 in English and Japanese — do not edit. -/",
+             "import CvssVerif.Basic.Bytes", "namespace CvssVerif.Gen.Names", "open CvssVerif", "",
+             "abbrev LangTab := List (Nat × Bytes)", ""]
+    # the fall-back names: what the value functions answer far outside every range
+    fb = (res[("SeverityValueOf", -130, "en")], res[("SeverityValueOf", -130, "ja")])
+    tt = [("unknownValueNameMap", fb)] + [("t_" + fn, (res[(fn, 0, "en")], res[(fn, 0, "ja")])) for fn in titles]
+    lines.append("def titleTabs : List (String × LangTab) := [")
+    lines.append(",\n".join('  ("%s", [(0, %s), (1, %s)])' % (n, _lean_bytes(p[0]), _lean_bytes(p[1])) for n, p in tt))
+    lines.append("]\n")
+    lines.append("def valueTabs : List (String × List (Int × LangTab)) := [")
+    vt = []
+    for fn in values:
+        ents = []
+        far = (res[(fn, -130, "en")], res[(fn, -130, "ja")])
+        for v in rng_v:
+            pr = (res[(fn, v, "en")], res[(fn, v, "ja")])
+            if pr != far:
+                ents.append("    (%d, [(0, %s), (1, %s)])" % (v, _lean_bytes(pr[0]), _lean_bytes(pr[1])))
+        vt.append('  ("v_%s", [\n%s])' % (fn, ",\n".join(ents)))
+    lines.append(",\n".join(vt))
+    lines.append("]\n")
+    lines.append("def funcs : List (String × Bool × String × String) := [")
+    fl = ['  ("%s", true, "v_%s", "unknownValueNameMap")' % (fn, fn) for fn in values] + ['  ("%s", false, "t_%s", "")' % (fn, fn) for fn in titles]
+    lines.append(",\n".join(sorted(fl)))
+    lines.append("]\n")
+    lines.append("def problems : List String := []\n")
+    lines.append("end CvssVerif.Gen.Names")
+    new = "\n".join(lines) + "\n"
+    if not os.path.exists(dst) or open(dst).read() != new:
+        open(dst, "w").write(new)
 
 
 def run_effects():
